@@ -51,13 +51,18 @@ class Log(object):
         self.detail_rhs = False
         self.system = None
         self.rhs_budget = 120000
-        self.event_budget = 250000
+        self.event_budget = 40000
+        self.over = False
 
     def emit(self, name, **kw):
         if not self.enabled:
             return
         if len(self.events) > self.event_budget:
-            raise BudgetExceeded("more than %d events" % self.event_budget)
+            if name not in ("Api", "ApiRet"):
+                if not self.over:
+                    self.over = True
+                    raise BudgetExceeded("more than %d events" % self.event_budget)
+                return None
         ev = {"e": name}
         ev.update(kw)
         s = self.system
